@@ -247,6 +247,37 @@ def impl_traces(ctx, runs, ops, seed):
             raise vlib.ToolError(f"binding self-test: trace without a hook was accepted by ImplTrace: {res}")
 
 
+def producers(ctx, runs, seed):
+    """concurrent producer threads on a shared writer: the next commit must be linearizable"""
+    import tracecheck
+    tp = ctx.path("producers.ndjson")
+    vlib.run_bin("core_driver", ["producers", "--seed", seed, "--runs", runs, "--out", tp], timeout=900)
+    keep = ("reset", "pcall", "pret", "commit", "rollback", "new_writer", "wait_merges", "end", "call")
+    pr = [[vlib.strip_nulls(e) for e in r if e.get("ev") in keep] for r in vlib.split_runs(vlib.read_ndjson(tp))]
+    # how many (add, matching delete) pairs really overlapped in time (measured, for the evidence)
+    overlap = forced = 0
+    for r in pr:
+        epoch = []
+        for e in r:
+            if e["ev"] == "pret":
+                epoch.append(e)
+            elif e["ev"] in ("commit", "rollback"):
+                for a in (x for x in epoch if x["k"] == "add"):
+                    for q in (x for x in epoch if x["k"] == "del" and x["t"] == a["t"]):
+                        if q["seq"] < a["call"] or a["seq"] < q["call"]:
+                            forced += 1
+                        else:
+                            overlap += 1
+                epoch = []
+    n = tracecheck.validate_runs(ctx, pr, "producers", "ProducerTrace", "ProducerTrace.cfg",
+                                 key=lambda r: json.dumps([[e.get("k"), e.get("t"), e.get("p")] for e in r if e["ev"] == "pret"])[:3000],
+                                 nontrivial=lambda r: any(e["ev"] == "pret" and e["k"] == "del" for e in r), timeout=300)
+    ctx.cov["traces_validated_against_impl"] += n
+    ctx.cov["producer_runs"] = {"runs": len(pr), "calls": sum(1 for r in pr for e in r if e["ev"] == "pret"),
+                                "add_delete_pairs_ordered_by_real_time": forced, "add_delete_pairs_overlapping": overlap}
+    log(f"[T] concurrent producers: {n}/{len(pr)} runs linearizable ({forced} ordered add/delete pairs, {overlap} overlapping)")
+
+
 def known_finding_runs(ctx):
     """dedicated small runs that confirm the recorded findings still reproduce"""
     tp = ctx.path("kf_trace.ndjson")
@@ -279,6 +310,7 @@ def run(ctx):
     known_finding_runs(ctx)
     binding_selftest(ctx, ev2)
     impl_traces(ctx, 60 if ctx.quick else 600, 25, ctx.seed + 3000)
+    producers(ctx, 40 if ctx.quick else 500, ctx.seed + 4000)
     runs = vlib.split_runs(api_events(ev2))
     if runs:
         ctx.sample({"kind": "random history executed on the real writer (API events)", "events": [
